@@ -1,5 +1,6 @@
 import Pdpy11.Driver.Proto
 import Pdpy11.Model.Shunt
+import Pdpy11.Model.ShuntP
 import Pdpy11.Gen.Operators
 namespace Pdpy11.Driver
 open Pdpy11.Model.Shunt
@@ -31,5 +32,26 @@ def handleShunt (args : List String) : String :=
     | some n, some ps => renderNamed (shunt n ps)
     | _, _ => "bad-op"
   | [] => "bad-op"
+
+def prefixOps : List (Nat × Pdpy11.Gen.OperatorG) :=
+  (Pdpy11.Gen.operators.zipIdx.map (fun (o, i) => (i, o))).filter (fun p => p.2.kind == .prefix)
+
+def findPrefix (ch : String) : Option Op :=
+  (prefixOps.find? (fun p => p.2.char == ch)).map (fun p => ⟨p.1, p.2.prec, p.2.leftAssoc⟩)
+
+def renderNamedP : Pdpy11.Model.ShuntP.PTree → String
+  | .atom n => toString n
+  | .pre o t => "(" ++ ((Pdpy11.Gen.operators[o.id]?).map (·.fname)).getD "?" ++ " " ++ renderNamedP t ++ ")"
+  | .node o l r => "(" ++ renderNamedP l ++ " " ++ ((Pdpy11.Gen.operators[o.id]?).map (·.fname)).getD "?" ++ " " ++ renderNamedP r ++ ")"
+
+/-- `shuntp <prefix> … | <atom> <op> <atom> …` → the tree of the loop with leading prefix operators -/
+def handleShuntP (args : List String) : String :=
+  let pres := args.takeWhile (· ≠ "|")
+  match args.dropWhile (· ≠ "|") with
+  | _ :: a :: rest =>
+    match pres.mapM findPrefix, a.toNat?, parsePairs rest with
+    | some ps, some n, some prs => renderNamedP (Pdpy11.Model.ShuntP.shuntP ps n prs)
+    | _, _, _ => "bad-op"
+  | _ => "bad-op"
 
 end Pdpy11.Driver
